@@ -100,12 +100,18 @@ def o2_read_side(ck):
     prog = ck.prog
     lk = ck.body(OB + "::lookup", "O2")
     rt = return_term(prog, lk)
-    good = rt is not None and is_call(rt, "Option::<T>::and_then") and is_call(rt[2][0], BOOK + "::find") and rt[2][0][2][0] == ("field", ("param", 1), "book") \
-        and rt[2][0][2][1] == ("call", HASH, (("field", ("param", 1), "hasher"), ("param", 2)))
-    ck.req(good, "O2.key", "OpeningBook::lookup", lk.where(), "lookup is not self.book.find(self.hasher.hash(state)).and_then(..): %s" % (show(rt)[:200] if rt else "?"),
+    # the found set may pass through and_then (closure checked below: Some(arg) only) or filter (keeps or drops, never alters)
+    inner = rt
+    if rt is not None and (is_call(rt, "Option::<T>::and_then") or is_call(rt, "Option::<T>::filter")):
+        inner = rt[2][0]
+    good = inner is not None and is_call(inner, BOOK + "::find") and inner[2][0] == ("field", ("param", 1), "book") \
+        and inner[2][1] == ("call", HASH, (("field", ("param", 1), "hasher"), ("param", 2)))
+    ck.req(good, "O2.key", "OpeningBook::lookup", lk.where(), "lookup is not self.book.find(self.hasher.hash(state)) (optionally filtered): %s" % (show(rt)[:200] if rt else "?"),
            "find(hash(state))")
     for cn in prog.closures_of(lk.name):
         c = prog.body(cn)
+        if c.local_ty(0) == "bool":
+            continue     # a filter predicate: cannot alter the set
         for p in decision_table(prog, c):
             if p.ret[0] == "agg" and p.ret[1].endswith("Option::Some"):
                 ck.req(p.ret[2][0] == ("param", 2), "O2.unchanged", cn.split("::")[-1], c.where(), "lookup's filter returns %s instead of the stored set" % show(p.ret[2][0]))
@@ -129,7 +135,15 @@ def o2_read_side(ck):
     ck.floor("O2", len(lks), 1, "book lookups in the UCI loop")
     for bb, t in lks:
         a = [etb.operand(x) for x in t["args"]]
-        ck.req(a[1][0] == "var" and (ex.local_name(a[1][1]) or "") == "current_position", "O2.uci_position", "go", ex.where(t["line"]), "the book is consulted for %s, not for the current position" % show(a[1]))
+        # the session position: the State-typed local that is assigned the Ok of by_performing_moves (identified by use, not by name)
+        sess = set()
+        for blk in ex.blocks:
+            for s_ in blk["stmts"]:
+                if s_["k"] == "assign" and not s_["place"]["p"] and ex.local_ty(s_["place"]["l"]).endswith("state::State"):
+                    v = etb.rvalue(s_["rv"])
+                    if any(x[0] == "call" and x[1].endswith("State::by_performing_moves") for x in walk(v)):
+                        sess.add(s_["place"]["l"])
+        ck.req(a[1][0] == "var" and a[1][1] in sess, "O2.uci_position", "go", ex.where(t["line"]), "the book is consulted for %s, not for the current position" % show(a[1]))
 
 
 def o3_same_hasher(ck):
